@@ -1,7 +1,7 @@
 (* C10 -- the generic theorems applied to the schemas GENERATED from /repo (Gen_C10_schemas.v).
    Everything below that mentions S_cxx... / schemas_level* is re-checked against the current source. *)
 From Coq Require Import String List Ascii Bool Arith Lia.
-Require Import IPV.C10.Raw IPV.C10.RawSpec IPV.C10.RawProofs IPV.C10.RawLevels IPV.C10.Serial.
+Require Import IPV.C10.Raw IPV.C10.RawSpec IPV.C10.RawProofs IPV.C10.RawLevels IPV.C10.Serial IPV.C10.Copy IPV.C10.Known.
 Require Import IPV.Gen.Gen_C10_schemas.
 Import ListNotations.
 Open Scope string_scope.
@@ -10,17 +10,6 @@ Open Scope list_scope.
 Notation L0 := schemas_level0.
 Notation L1 := schemas_level1.
 Notation L2 := schemas_level2.
-
-(* classes for which NO record can be read back (schema_ok fails), and every writer item that is not
-   restored faithfully, in the unchanged tree.  Anything beyond these lists fails the proofs below. *)
-Definition known_not_ok : list string := ["cxxSolutionIsotope"].
-Definition known_defects : list (string * string * string) :=
-  [ ("cxxSolutionIsotope", "-ratio_uncertainty", "broken");
-    ("cxxSolutionIsotope", "required:ratio_defined", "never-set");
-    ("cxxSolution", "-Isotope", "broken");
-    ("cxxGasComp", "-p", "dropped");
-    ("cxxExchange", "-totals", "rows-unreadable");
-    ("cxxSurface", "-totals", "rows-unreadable") ].
 
 Lemma names_ok_gen : names_ok L0 L1 = true.
 Proof. vm_compute. reflexivity. Qed.
@@ -133,3 +122,10 @@ Proof.
   apply (serialize_roundtrip X enc dec Hde); [|assumption].
   pose proof serial_all_ok as H. rewrite forallb_forall in H. exact (H _ Hin).
 Qed.
+
+(* ---------------------------------------------------------------- copy path covers the dump *)
+Lemma copy_defects_known : incl3b (copy_defects all_schemas all_serial) known_copy_defects = true.
+Proof. vm_compute. reflexivity. Qed.
+
+Lemma dump_defects_known : incl3b (dump_defects key_members all_schemas all_serial) known_dump_defects = true.
+Proof. vm_compute. reflexivity. Qed.
